@@ -110,6 +110,38 @@ theorem allDone_of_fix {w : World} : ∀ (ps : List NodeId) {ns : NSMap}, (∀ p
       · intro a; exact absurd a (by simp)
       · intro a; exact absurd (a p (by simp)) hd
 
+theorem allDoneAll_cons (w : World) (ns : NSMap) (p : NodeId) (ps : List NodeId) :
+    allDoneAll w ns (p :: ps) =
+      ((nodeDone w ns p).1 && (allDoneAll w (nodeDone w ns p).2 ps).1, (allDoneAll w (nodeDone w ns p).2 ps).2) := rfl
+
+theorem ninv_allDoneAll {wf : Wf} {w : World} : ∀ (ps : List NodeId) {ns : NSMap}, NInv wf w ns →
+    NInv wf w (allDoneAll w ns ps).2
+  | [], _, h => h
+  | p :: ps, ns, h => by
+    rw [allDoneAll_cons]
+    exact ninv_allDoneAll ps (ninv_upd h p)
+
+theorem allDoneAll_of_fix {w : World} : ∀ (ps : List NodeId) {ns : NSMap}, (∀ p, p ∈ ps → Fix w (ns.get p)) →
+    (allDoneAll w ns ps).2 = ns ∧ ((allDoneAll w ns ps).1 = true ↔ ∀ p, p ∈ ps → (ns.get p).isDone = true)
+  | [], _, _ => by simp [allDoneAll]
+  | p :: ps, ns, hf => by
+    have hp : upd w ns p = ns := upd_of_fix (hf p (by simp))
+    have h2 : (nodeDone w ns p).2 = ns := hp
+    have h1 : (nodeDone w ns p).1 = (ns.get p).isDone := by
+      show ((upd w ns p).get p).isDone = _
+      rw [hp]
+    rw [allDoneAll_cons, h2, h1]
+    obtain ⟨a, b⟩ := allDoneAll_of_fix ps (fun q hq => hf q (by simp [hq]))
+    refine ⟨a, ?_⟩
+    simp only [Bool.and_eq_true, b]
+    constructor
+    · rintro ⟨x, y⟩ q hq
+      rcases List.mem_cons.mp hq with rfl | hq
+      · exact x
+      · exact y q hq
+    · intro hall
+      exact ⟨hall p (by simp), fun q hq => hall q (by simp [hq])⟩
+
 /-! ### `NodeExecution.get_runnable_tasks` -/
 
 /-- the state of a node right after `start()` and the unblocking of all its jobs -/
@@ -157,8 +189,10 @@ theorem nodeRunnable_spec {wf : Wf} {w : World} {ns : NSMap} {n : NodeId} (h : N
     cases hu : (ns.get n).unrunnable
     · rfl
     · rw [isDone_of_unrunnable hl hu] at hnd; exact absurd hnd (by simp)
+  obtain ⟨had2, had1⟩ := allDoneAll_of_fix (wf.preds n) hfix
   unfold nodeRunnable
   simp only
+  rw [had2]
   split
   · -- some predecessor has a failed job or is unrunnable
     rename_i hc
@@ -203,8 +237,6 @@ theorem nodeRunnable_spec {wf : Wf} {w : World} {ns : NSMap} {n : NodeId} (h : N
     · intro hne; rw [setN_get_same] at hne; exact absurd rfl hne
     · intro _; right; left; rw [setN_get_same]; exact ⟨rfl, rfl⟩
   · rename_i hc
-    obtain ⟨had2, had1⟩ := allDone_of_fix (wf.preds n) hfix
-    rw [had2]
     split
     · -- all predecessors are done
       rename_i hall
@@ -303,6 +335,12 @@ theorem grow_allDone (w : World) : ∀ (ps : List NodeId) (ns : NSMap), Grow ns 
     by_cases hd : (nodeDone w ns p).1 = true
     · rw [if_pos hd]; exact (grow_upd w ns p).trans (grow_allDone w ps _)
     · rw [if_neg hd]; exact grow_upd w ns p
+
+theorem grow_allDoneAll (w : World) : ∀ (ps : List NodeId) (ns : NSMap), Grow ns (allDoneAll w ns ps).2
+  | [], ns => Grow.refl ns
+  | p :: ps, ns => by
+    rw [allDoneAll_cons]
+    exact (grow_upd w ns p).trans (grow_allDoneAll w ps _)
 
 theorem grow_anyNotDone (w : World) : ∀ (l : List NodeId) (ns : NSMap), Grow ns (anyNotDone w ns l).2
   | [], ns => Grow.refl ns
